@@ -85,8 +85,48 @@ func roundsWL(x *mon.Ctx) {
 			continue
 		}
 		c.R = mon.NewRand(c.R.Uint64(), "c20 burst", x.Config, x.Variant, x.Shards)
-		oneBurst(c, slow)
+		kind, trials := pickBurst(c, slow, j < x.Shards)
+		oneBurst(c, kind, trials)
 		c.End()
+	}
+}
+
+// burstsWL (c20.bursts) is made of first-use bursts only, every object kind in every process, and is meant for builds
+// WITHOUT the race detector: there a trial costs a tenth of what it costs under the detector and the goroutines leave
+// the barrier within nanoseconds, which is what one-shot transitions with windows well below a microsecond need (a
+// table that a first mode construction caches in the block while a second construction already copies it: nothing
+// the detector could see when the writer is assembly and the flag atomic). The oracle is the comparison of every
+// result, and of the object's value afterwards, with the same calls made one after another on a twin. The first-mode-
+// construction kind is run three times as often as the others (first, last and in its place).
+func burstsWL(x *mon.Ctx) {
+	slow := strings.Contains(x.Variant, "purego")
+	mult := 1
+	kinds := verdictBurstKinds()
+	mode := kinds[len(kinds)-1]
+	order := append(append([]burstKind{mode}, kinds...), mode)
+	reps := x.Scale(1, 4)
+	for i := 0; i < x.Shards*reps; i++ {
+		for ki, kind := range order {
+			c := x.Begin("first-use bursts #%d kind %d (%.60s)", i, ki, kind.name)
+			if c == nil {
+				continue
+			}
+			c.R = mon.NewRand(c.R.Uint64(), "c20 bursts", x.Config, x.Variant, x.Shards)
+			trials := kind.trials * mult
+			if slow {
+				trials = (kind.trials + 3) / 4
+			}
+			if kind.name == mode.name && !slow {
+				// a polling crew (see oneBurst), three such cases per process; the default dispatch configuration, where every
+				// mode has its assembly and its tables, gets twice the trials of the others
+				trials = 150
+				if x.Config == "avx2" {
+					trials = 300
+				}
+			}
+			oneBurst(c, kind, trials)
+			c.End()
+		}
 	}
 }
 
@@ -156,18 +196,75 @@ func pickOp(r *mon.Rand) int {
 }
 
 // planRound decides the call lists of a round. Every kind keeps at least half of the calls random over the whole table.
-func planRound(c *mon.Case, ng, perG int) (lists [][]call, kind string) {
+func planRound(c *mon.Case, ng, perG int, slow bool) (lists [][]call, pre []call, kind string, share int) {
 	lists = make([][]call, ng)
 	for g := range lists {
 		for k := 0; k < perG; k++ {
 			lists[g] = append(lists[g], call{op: pickOp(c.R), seed: c.R.Uint64()})
 		}
 	}
+	// REFUSED calls (refuse.go) among the valid ones, on the same shared objects, in every goroutine: in five rounds of
+	// six the share of the calls that the generator draws (1/8 ... 3/4) is replaced by operations whose calls the
+	// library refuses (most of them end with the valid call); the first call of a goroutine may be one (a shared object
+	// whose first use is a refusal). The sixth round has only the refusals that the round kinds below bring in.
+	ref := refusing()
+	share = []int{0, 1, 2, 3, 4, 6}[c.R.Intn(6)]
+	if share > 0 {
+		for g := range lists {
+			for k := range lists[g] {
+				if c.R.Intn(8) < share {
+					lists[g][k].op = ref[c.R.Intn(len(ref))]
+				}
+			}
+		}
+	}
+	// ... and on the main goroutine BEFORE the concurrent phase (on the twins of the shared objects, which stay cold):
+	// what a refusal leaves behind in the package or the process is there when the goroutines start
+	for i, n := 0, []int{0, 0, 1, 2, 4, 6}[c.R.Intn(6)]; i < n && !(slow && i == 2); i++ {
+		pre = append(pre, call{op: ref[c.R.Intn(len(ref))], seed: c.R.Uint64()})
+	}
 	// every goroutine makes one call on objects of its own somewhere in its list: first uses of DIFFERENT objects of
 	// one kind then overlap in time in every round (scratch space that first-use paths share between objects)
 	own := opsOfFamily("own")
+	pinned := make([]map[int]bool, ng)
+	ownAt := make([]int, ng)
 	for g := range lists {
-		lists[g][c.R.Intn(len(lists[g]))].op = own[c.R.Intn(len(own))]
+		ownAt[g] = c.R.Intn(len(lists[g]))
+		lists[g][ownAt[g]].op = own[c.R.Intn(len(own))]
+		pinned[g] = map[int]bool{ownAt[g]: true}
+	}
+	ensure := func() {
+		if share == 0 {
+			return
+		}
+		// at least one refused call in every goroutine, whatever the round kind put where
+		isRef := map[int]bool{}
+		for _, i := range ref {
+			isRef[i] = true
+		}
+		var ownRef []int
+		for _, i := range own {
+			if isRef[i] {
+				ownRef = append(ownRef, i)
+			}
+		}
+		for g := range lists {
+			has := false
+			var free []int
+			for k := range lists[g] {
+				has = has || isRef[lists[g][k].op]
+				if !pinned[g][k] {
+					free = append(free, k)
+				}
+			}
+			switch {
+			case has:
+			case len(free) > 0:
+				lists[g][free[c.R.Intn(len(free))]].op = ref[c.R.Intn(len(ref))]
+			default:
+				lists[g][ownAt[g]].op = ownRef[c.R.Intn(len(ownRef))]
+			}
+		}
 	}
 	switch c.R.Intn(6) {
 	case 0, 1:
@@ -177,6 +274,7 @@ func planRound(c *mon.Case, ng, perG int) (lists [][]call, kind string) {
 			if g%2 == 0 {
 				lists[g][0].op = lists[0][0].op
 			}
+			pinned[g][0] = true
 		}
 	case 2:
 		// pool-heavy: each goroutine verifies a leaf against the shared pools first and last, leaves of the two same-subject
@@ -198,12 +296,19 @@ func planRound(c *mon.Case, ng, perG int) (lists [][]call, kind string) {
 				}
 			}
 		}
+		// ... or certificates that do not chain at all
+		for _, i := range ref {
+			if ops[i].fam == "pool" {
+				nc = append(nc, i)
+			}
+		}
 		for g := range lists {
 			for _, k := range []int{0, len(lists[g]) - 1} {
 				lists[g][k] = call{op: vi, seed: c.R.Uint64()&^1 | uint64((g+k)&1)}
 				if c.R.Intn(2) == 1 {
 					lists[g][k].op = nc[c.R.Intn(len(nc))]
 				}
+				pinned[g][k] = true
 			}
 		}
 	default:
@@ -220,11 +325,51 @@ func planRound(c *mon.Case, ng, perG int) (lists [][]call, kind string) {
 			if fam == "own" || fam == "points" {
 				lists[g][0].op = same
 			}
-			lists[g][1+c.R.Intn(len(lists[g])-1)].op = idx[c.R.Intn(len(idx))]
+			k := 1 + c.R.Intn(len(lists[g])-1)
+			lists[g][k].op = idx[c.R.Intn(len(idx))]
+			pinned[g][0], pinned[g][k] = true, true
 		}
 	}
-	return lists, kind
+	ensure()
+	return lists, pre, kind, share
 }
+
+// show renders a result for a report: the text results of refuse.go as text, everything else in hexadecimal.
+func show(b []byte) string {
+	for _, ch := range b {
+		if ch < 0x20 || ch > 0x7e {
+			if len(b) > 200 {
+				return fmt.Sprintf("%x... (%d bytes)", b[:200], len(b))
+			}
+			return fmt.Sprintf("%x", b)
+		}
+	}
+	if len(b) > 400 {
+		return fmt.Sprintf("%q... (%d bytes)", b[:400], len(b))
+	}
+	return fmt.Sprintf("%q", b)
+}
+
+var isRefusing = func() map[int]bool {
+	m := map[int]bool{}
+	for _, i := range refusing() {
+		m[i] = true
+	}
+	return m
+}()
+
+// refusing returns the indices (into ops) of the operations of refuse.go.
+var refusing = sync.OnceValue(func() []int {
+	var idx []int
+	for i := range ops {
+		for j := range refuseOps {
+			if ops[i].name == refuseOps[j].name {
+				idx = append(idx, i)
+			}
+		}
+	}
+	return idx
+})
 
 // materialFor returns the key material and prepared artefacts (bytes only, never objects) of round i. Building it is a
 // third of the cost of a round, so two consecutive rounds of a process share it; every round still builds its own two
@@ -261,8 +406,32 @@ func oneRound(c *mon.Case, kind string, slow bool, getMaterial func() *material)
 		c.Fail("panic", "setup: %v\n%s", p.Value, p.Stack)
 		return
 	}
-	lists, rkind := planRound(c, ng, perG)
-	c.Detail("round", fmt.Sprintf("kind %s, %d goroutines x %d calls, GOMAXPROCS %d", rkind, ng, perG, runtime.GOMAXPROCS(0)))
+	lists, pre, rkind, share := planRound(c, ng, perG, slow)
+	// The sequential replay is the oracle. In one round of four it runs BEFORE the concurrent phase (its refused calls
+	// are then part of the history the goroutines start from), otherwise after it (the refused calls of the goroutines
+	// are then part of ITS history: what they left behind must not change what a sequential caller gets either).
+	replayFirst := c.R.Intn(4) == 0
+	c.Detail("round", fmt.Sprintf("kind %s, %d goroutines x %d calls, refused share %d/8, %d refused operations before the barrier, sequential replay %s, GOMAXPROCS %d",
+		rkind, ng, perG, share, len(pre), map[bool]string{true: "first", false: "afterwards"}[replayFirst], runtime.GOMAXPROCS(0)))
+	// the second object set: the twins of the shared objects
+	var seq *objset
+	if p := mon.Try(func() { seq = m.cold() }); p != nil {
+		c.Fail("panic", "setup of the sequential object set: %v", p.Value)
+		return
+	}
+	// refused calls on the main goroutine before the concurrent phase, on the twins
+	var preOut, preSeq outcome
+	runList(seq, m, pre, &preOut, nil, nil, nil)
+	seqOuts := make([]outcome, ng)
+	replay := func(set *objset, outs []outcome, po *outcome) {
+		for g := 0; g < ng; g++ {
+			runList(set, m, lists[g], &outs[g], nil, nil, nil)
+		}
+		runList(set, m, pre, po, nil, nil, nil)
+	}
+	if replayFirst {
+		replay(seq, seqOuts, &preSeq)
+	}
 	outs := make([]outcome, ng)
 	prog := make([]atomic.Int64, ng)
 	finished := make([]bool, ng)
@@ -281,7 +450,7 @@ func oneRound(c *mon.Case, kind string, slow bool, getMaterial func() *material)
 	close(start)
 	allDone := settle(fin, finished, suspectAfter)
 
-	// sequential replay on a second cold set (for the suspects of a hang this is also the first part of the logical bound)
+	// sequential replay on the second set (for the suspects of a hang this is also the first part of the logical bound)
 	var snap []int64
 	if !allDone {
 		snap = make([]int64, ng)
@@ -289,17 +458,70 @@ func oneRound(c *mon.Case, kind string, slow bool, getMaterial func() *material)
 			snap[g] = prog[g].Load()
 		}
 	}
-	var seq *objset
-	if p := mon.Try(func() { seq = m.cold() }); p != nil {
-		c.Fail("panic", "setup of the sequential object set: %v", p.Value)
-		return
-	}
-	seqOuts := make([]outcome, ng)
-	for g := 0; g < ng; g++ {
-		runList(seq, m, lists[g], &seqOuts[g], nil, nil, nil)
+	if !replayFirst {
+		replay(seq, seqOuts, &preSeq)
+	} else if !allDone {
+		// the replay was made before the round: the logical bound needs one made now (results not used)
+		if p := mon.Try(func() { replay(m.cold(), make([]outcome, ng), new(outcome)) }); p != nil {
+			c.Fail("panic", "second sequential replay: %v", p.Value)
+		}
 	}
 	if !allDone {
 		allDone = confirmHangs(c, shared, seq, m, lists, seqOuts, prog, snap, finished, fin)
+	}
+
+	// A call whose concurrent and sequential results differ is made a third time, alone, on a third cold object set:
+	// the side it agrees with is right (at most eight such calls per round).
+	var third *objset
+	thirdRuns := 0
+	decide := func(cl call, first, sq []byte, which string) string {
+		if thirdRuns++; thirdRuns > 8 {
+			return "no third run (more than eight differences in this round)"
+		}
+		var r3 []byte
+		if p := mon.Try(func() {
+			if third == nil {
+				third = m.cold()
+			}
+			r3 = ops[cl.op].f(third, m, cl.seed)
+		}); p != nil {
+			return fmt.Sprintf("the same call made a third time, alone on a third object set, panicked: %v", p.Value)
+		}
+		c.Event("third_runs", 1)
+		switch {
+		case bytes.Equal(r3, sq):
+			return "the same call made a third time, alone on a third cold object set, agrees with the sequential replay: the " + which + " result is the wrong one"
+		case bytes.Equal(r3, first):
+			return "the same call made a third time, alone on a third cold object set, agrees with the " + which + " result: the SEQUENTIAL REPLAY is the side that is wrong (what earlier calls left behind falsified a sequential call)"
+		}
+		return fmt.Sprintf("the same call made a third time, alone on a third cold object set, gives a third result %s", show(r3))
+	}
+	seqFailed := func(name string, r []byte) {
+		if bytes.HasPrefix(r, []byte("ERR:")) {
+			kind := "reject"
+			if bytes.Contains(r, []byte(acceptedMark)) {
+				kind = "accept"
+			}
+			c.Fail(kind, "call %s failed in the sequential replay: %s", name, r)
+		}
+	}
+
+	// the refused calls made before the barrier: the same calls in the replay must have the same outcomes
+	c.Event("refused_operations_before_the_barrier", len(pre))
+	switch {
+	case preOut.panicked != "":
+		c.Fail("panic", "main goroutine, before the concurrent phase (ops %v): %s", names(pre), preOut.panicked)
+	case preSeq.panicked != "":
+		c.Fail("panic", "sequential replay of the calls made before the concurrent phase panicked (ops %v): %s", names(pre), preSeq.panicked)
+	default:
+		for k := range pre {
+			c.Event("results_compared", 1)
+			seqFailed(ops[pre[k].op].name, preSeq.res[k])
+			if !bytes.Equal(preOut.res[k], preSeq.res[k]) {
+				c.Fail("mismatch", "call %d (%s) made on the main goroutine before the concurrent phase and the same call in the sequential replay differ; %s. Earlier result %s, in the replay %s", k, ops[pre[k].op].name,
+					decide(pre[k], preOut.res[k], preSeq.res[k], "earlier"), show(preOut.res[k]), show(preSeq.res[k]))
+			}
+		}
 	}
 
 	firstOps := map[string]int{}
@@ -310,9 +532,7 @@ func oneRound(c *mon.Case, kind string, slow bool, getMaterial func() *material)
 			continue
 		}
 		for k := range lists[g] {
-			if bytes.HasPrefix(so.res[k], []byte("ERR:")) {
-				c.Fail("reject", "call %s failed in the sequential replay: %s", ops[lists[g][k].op].name, so.res[k])
-			}
+			seqFailed(ops[lists[g][k].op].name, so.res[k])
 		}
 		if !finished[g] {
 			continue // reported (or recorded as inconclusive) by confirmHangs; its outcome must not be read
@@ -323,8 +543,12 @@ func oneRound(c *mon.Case, kind string, slow bool, getMaterial func() *material)
 		}
 		for k := range lists[g] {
 			c.Event("results_compared", 1)
+			if isRefusing[lists[g][k].op] {
+				c.Event("refused_operations_in_the_concurrent_phase", 1)
+			}
 			if !bytes.Equal(outs[g].res[k], so.res[k]) {
-				c.Fail("mismatch", "goroutine %d call %d (%s): concurrent result %x differs from the sequential result %x", g, k, ops[lists[g][k].op].name, outs[g].res[k], so.res[k])
+				c.Fail("mismatch", "goroutine %d call %d (%s): concurrent and sequential results differ; %s. Concurrent result %s, sequential result %s", g, k, ops[lists[g][k].op].name,
+					decide(lists[g][k], outs[g].res[k], so.res[k], "concurrent"), show(outs[g].res[k]), show(so.res[k]))
 			}
 		}
 		firstOps[ops[lists[g][0].op].name]++
@@ -348,6 +572,10 @@ func oneRound(c *mon.Case, kind string, slow bool, getMaterial func() *material)
 		return
 	}
 	c.Class("kind/%s/g%d", rkind, ng)
+	c.Class("refused share %d/8, refused operations before the barrier: %v, sequential replay first: %v", share, len(pre) > 0, replayFirst)
+	if replayFirst {
+		c.Event("rounds_with_the_sequential_replay_first", 1)
+	}
 	c.Class("legacy curves A=%s B=%s", shared.legA.Params().Name, shared.legB.Params().Name)
 	observe(c, outs, firstOps, ng)
 }
